@@ -23,7 +23,7 @@ type c03Tok struct {
 type c03Case struct {
 	Toks []c03Tok `json:"toks"`
 	Tail string   `json:"tail,omitempty"` // an unterminated lexical construct appended to the rendered tokens
-	Raw  string   `json:"raw,omitempty"`  // a source text that ends inside a here-document (must be rejected)
+	Raw  string   `json:"raw,omitempty"`  // a source text that must be rejected: it ends inside a here-document, or (kind arith-parens) its "((" has no matching "))" under either reading
 	Kind string   `json:"kind"`
 }
 
@@ -162,10 +162,16 @@ func c03Exec(c *core.Ctx, cs c03Case) {
 func c03Raw(c *core.Ctx, cs c03Case) {
 	cmds, _, err := parser.ParseCommands(nil, "c03-name", cs.Raw)
 	c.Eval(1)
-	c.Count("verdict/incomplete", 1)
 	key := q(cs.Raw)
+	why := "the input ends inside a here-document"
+	if cs.Kind == "arith-parens" {
+		c.Count("verdict/invalid", 1)
+		why = `the "((" is not closed by a "))" at its own depth, and read as nested parentheses the text is no command either`
+	} else {
+		c.Count("verdict/incomplete", 1)
+	}
 	if err == nil {
-		c.Violation("accepted-incomplete", key, "a syntax error (the input ends inside a here-document)", fmt.Sprintf("nil error, %d command(s)", len(cmds)), "")
+		c.Violation("accepted-incomplete", key, "a syntax error ("+why+")", fmt.Sprintf("nil error, %d command(s)", len(cmds)), "")
 		return
 	}
 	pe, ok := err.(parser.Error)
@@ -179,6 +185,94 @@ func c03Raw(c *core.Ctx, cs c03Case) {
 	default:
 		c.Distinct(cs.Kind, errClass(pe.Msg))
 	}
+}
+
+// c03ArithWrap: sites of an arithmetic command (cmd) or expansion; pre / post are token lists for the recogniser.
+var c03ArithWrap = []struct {
+	pre, post string
+	exp       bool
+}{
+	{"", "\n", false}, {"echo ", "\n", true}, {"( ", " )\n", false}, {"{ ", "; }\n", false}, {"if ", "; then a; fi\n", false}, {"a | ", " && b\n", false}, {"echo a", "b c\n", true},
+}
+
+// c03ArithCase renders x inside "((" "))" at site wi and reports whether the
+// text has to be rejected: the "((" finds no "))" at its own depth that ends
+// the construct where the text ends (reading A, arithmetic), and with every
+// parenthesis taken as an operator of its own (reading B, XCU 2.6.4: "$((" may
+// also open a command substitution that starts with a subshell) the
+// recogniser finds no command either.
+func c03ArithCase(x string, wi int) (string, bool) {
+	w := c03ArithWrap[wi]
+	open := "(("
+	if w.exp {
+		open = "$(("
+	}
+	src := w.pre + open + x + "))" + w.post
+	// reading A
+	body := x + "))"
+	d, closed := 0, -1
+	for i := 0; i < len(body) && closed < 0; i++ {
+		switch body[i] {
+		case '(':
+			d++
+		case ')':
+			if d > 0 {
+				d--
+			} else if i+1 < len(body) && body[i+1] == ')' {
+				closed = i
+			} else {
+				closed = len(body) // a ")" at depth 0 that is not half of "))": not an arithmetic construct
+			}
+		}
+	}
+	if closed == len(x) {
+		return src, false // well-formed arithmetic: accepted (C02's business)
+	}
+	// reading B: tokens
+	var rt []recog.Tok
+	word := func(s string) {
+		if s != "" {
+			rt = append(rt, recog.Tok{K: recog.Word, Text: s, Plain: true})
+		}
+	}
+	lex := func(s string) {
+		cur := ""
+		for i := 0; i < len(s); i++ {
+			switch ch := s[i]; ch {
+			case ' ':
+				word(cur)
+				cur = ""
+			case '\n':
+				word(cur)
+				cur = ""
+				rt = append(rt, recog.Tok{K: recog.Newline, Text: "\n"})
+			case '(', ')', ';', '|', '&':
+				word(cur)
+				cur = ""
+				op := string(ch)
+				if (ch == '&' || ch == '|') && i+1 < len(s) && s[i+1] == ch {
+					op += op
+					i++
+				}
+				rt = append(rt, recog.Tok{K: recog.Op, Text: op})
+			default:
+				cur += string(ch)
+			}
+		}
+		word(cur)
+	}
+	if w.exp {
+		// the word that holds "$(" ... ")" is one word for the grammar whatever is glued to it
+		lex(strings.TrimRight(w.pre, "a"))
+		rt = append(rt, recog.Tok{K: recog.SubOpen, Text: "$("})
+		lex("(" + x + "))")
+		// text glued to the closing parenthesis continues the word; a ")" left over is an operator
+		lex(strings.TrimLeft(w.post, "b"))
+	} else {
+		lex(src)
+	}
+	v, _ := recog.Recognise(rt)
+	return src, v == recog.Invalid || v == recog.Incomplete
 }
 
 func c03FromGen(toks []gen.Tok) []c03Tok {
@@ -295,6 +389,38 @@ func c03Gen(c *core.Ctx) {
 				cs.Toks = append(cs.Toks, pick(r, c03Vocab))
 			}
 			core.Run(c, cs, c03Exec)
+		}
+	}
+	// 1c. parentheses inside "((" ... "))": every text of <=6 (thorough <=8) characters over ( ) 1 blank,
+	// in an arithmetic command and an arithmetic expansion at several sites
+	for n, maxN := 0, c.Pick(6, 8); n <= maxN; n++ {
+		idx := make([]int, n)
+		for {
+			if c.Mine() {
+				var x strings.Builder
+				for _, k := range idx {
+					x.WriteByte("()1 "[k])
+				}
+				for wi := range c03ArithWrap {
+					if src, must := c03ArithCase(x.String(), wi); must {
+						core.Run(c, c03Case{Raw: src, Kind: "arith-parens"}, c03Exec)
+					} else {
+						c.Count("arith-parens/not-judged", 1)
+					}
+				}
+			}
+			k := n - 1
+			for k >= 0 {
+				idx[k]++
+				if idx[k] < 4 {
+					break
+				}
+				idx[k] = 0
+				k--
+			}
+			if k < 0 {
+				break
+			}
 		}
 	}
 	// 1b. prefixes of programs that end inside a here-document body
